@@ -1231,6 +1231,8 @@ def q11(ctx, fns, m, lk):
                 out.append((tr, ['ctx'] + r[:k + 1] + ['N'] + r[k + 1:], Ptr('N', SZ)))
         return out
     rings = [[], ['A1'], ['A1', 'A2'], ['A1', 'A2', 'A3'], ['A1', 'A2', 'A3', 'A4']]
+    if ctx.tier == 'thorough':
+        rings += [['A%d' % k for k in range(1, m_ + 1)] for m_ in (5, 6, 7, 8)]
     for name in ('a_que_sort_fore', 'a_que_sort_back', 'a_que_push_sort'):
         fn = fns.get(name)
         if fn is None:
@@ -1264,7 +1266,7 @@ def q11(ctx, fns, m, lk):
                     probs.append('ring %s: %d of the %d outcomes of the reference scan are reachable' % (r, len(seen), len(ref)))
             except Unsupported as e:
                 probs.append('ring %s: outside the domain: %s' % (r, e))
-        (rep.bad if probs else rep.ok)('Q11', name + '[rings of 0..4]', '; '.join(probs[:2])[:700] or '%d outcomes: operands and order of every comparison, the stop rule (first result <= 0) and the resulting ring equal the reference scan' % n,
+        (rep.bad if probs else rep.ok)('Q11', name + '[rings of 0..%d]' % (len(rings) - 1), '; '.join(probs[:2])[:700] or '%d outcomes: operands and order of every comparison, the stop rule (first result <= 0) and the resulting ring equal the reference scan' % n,
                                        **({'key': '%s: scan and re-link' % name, 'loc': fn.loc(fn.entry.instrs[0])} if probs else {'sample': {'fn': name, 'outcomes': n}}))
 
     # ---- Part B: one scan iteration + the re-linking behind it at an arbitrary position of a ring of any length
